@@ -24,6 +24,7 @@
       order (ApiProofs.ra_peers_perm), so the model folds in the order listed and the runner
       compares sorted listings.  get_peers: the same through Server.filter_peers (BEP 32). *)
 From Dht Require Import Base Int160 Msg Server.
+From Dht Require Security.
 From DhtGen Require Import Params.
 From Coq Require Import List NArith ZArith Bool.
 Import ListNotations.
@@ -89,6 +90,35 @@ Definition ra_why (root : N) (must may : list ra_ent) (obs : list (ra_ent * nat)
   else if negb (forallb (fun e => negb (ra_admissible root e) || ra_mem e es
                                   || Nat.leb K (ra_count root (ra_bucket root e) es)) must) then 6%nat
   else 0%nat.
+
+(* ------------------------------------------------------------------ routing table of a node that
+   enforces the security extension (NoSecurity = false): offers come from nodes files, AddNode
+   calls, queries and responses as before, but a candidate whose id is not valid for its address
+   (Security.node_id_secure, the model of NodeIdSecure decided by C17) is a bad node for
+   Server.addNode and never enters.  [nosec = true] is the relation above. *)
+Definition ra_secure (e : ra_ent) : bool :=
+  match Security.node_id_secure (ofN 20 (ra_id e)) (ra_ip e) with Some b => b | None => false end.
+
+Definition ra_adm_s (nosec : bool) (root : N) (e : ra_ent) : bool :=
+  if nosec then ra_admissible root e else ra_admissible root e && ra_secure e.
+
+(* one offer, sequentially *)
+Definition ra_add_s (nosec : bool) (root : N) (tbl : list ra_ent) (e : ra_ent) : list ra_ent :=
+  if ra_adm_s nosec root e then ra_add root tbl e else tbl.
+
+Definition ra_run_s (nosec : bool) (root : N) (offers : list ra_ent) : list ra_ent :=
+  fold_left (ra_add_s nosec root) offers [].
+
+(* acceptance: every observed entry is admissible for this configuration, and the table is accepted
+   for the admissible ones among the candidates certainly offered *)
+Definition ra_accept_s (nosec : bool) (root : N) (must may : list ra_ent) (obs : list (ra_ent * nat)) : bool :=
+  forallb (fun o => ra_adm_s nosec root (fst o)) obs
+  && ra_accept root (filter (ra_adm_s nosec root) must) may obs.
+
+Definition ra_why_s (nosec : bool) (root : N) (must may : list ra_ent) (obs : list (ra_ent * nat)) : nat :=
+  if negb (forallb (fun o => ra_admissible root (fst o)) obs) then 2%nat
+  else if negb (forallb (fun o => ra_adm_s nosec root (fst o)) obs) then 7%nat
+  else ra_why root (filter (ra_adm_s nosec root) must) may obs.
 
 (* ------------------------------------------------------------------ the API's counters *)
 
